@@ -13,7 +13,7 @@ import json, os, re, subprocess, sys, shutil, threading, queue, time
 ENV = dict(os.environ, GOFLAGS="-mod=mod", GOPROXY="off", GOSUMDB="off", GOTOOLCHAIN="local")
 MUT = "/tmp/mut"
 MUTATE = "/verif/harness/bin/mutate"
-CORE = ["C15"]
+CORE = ["C15", "C14", "C13"]
 
 
 def sh(cmd, cwd=None, timeout=900, env=None):
